@@ -20,3 +20,20 @@ Proof. replace (concat l) with (concat (firstn k l) ++ concat (skipn k l)) by (s
   rewrite app_length. lia. Qed.
 Lemma skipn_skipn {A} : forall (y x : nat) (l : list A), skipn x (skipn y l) = skipn (y + x) l.
 Proof. induction y as [|y IH]; intros x [|a l]; cbn [skipn plus]; try reflexivity; [destruct x; reflexivity|apply IH]. Qed.
+Lemma firstn_S_nth {A} : forall (l : list A) i x, nth_error l i = Some x -> firstn (S i) l = firstn i l ++ [x].
+Proof.
+  induction l as [|a l IH]; intros [|i] x H; cbn in H; try discriminate.
+  - injection H as ->. reflexivity.
+  - change (firstn (S (S i)) (a :: l)) with (a :: firstn (S i) l). rewrite (IH i x H). reflexivity.
+Qed.
+Lemma NoDup_skipn {A} : forall m (l : list A), NoDup l -> NoDup (skipn m l).
+Proof. induction m as [|m IH]; intros [|a l] H; cbn; auto. inversion H; subst. apply IH. assumption. Qed.
+Lemma In_skipn {A} (l : list A) m x : In x (skipn m l) -> In x l.
+Proof. intros H. rewrite <- (firstn_skipn m l). apply in_or_app. right. exact H. Qed.
+Lemma NoDup_app_intro_one {A} (l : list A) x : NoDup l -> ~ In x l -> NoDup (l ++ [x]).
+Proof.
+  induction 1 as [|a l Hni Hnd IH]; intros Hx; cbn; [constructor; [auto|constructor]|].
+  constructor.
+  - intros Hi. apply in_app_or in Hi as [Hi|[->|[]]]; [auto|]. apply Hx. left. reflexivity.
+  - apply IH. intros Hi. apply Hx. right. exact Hi.
+Qed.
